@@ -34,20 +34,23 @@ Member(n) == IF MemberRule = "stemcsv" THEN <<n.stem, ".csv">> ELSE <<n.stem, n.
 Init == /\ fs = [p \in {} |-> 0] /\ arch = [m \in {} |-> 0] /\ last = [op |-> "none"] /\ ndoc = 0 /\ hist = <<>>
 Exists(p) == p \in DOMAIN fs
 Put(f, k, v) == [x \in (DOMAIN f) \cup {k} |-> IF x = k THEN v ELSE f[x]]
-\* the contract speaks about one document per name: a write is "fresh" when no earlier write used the same
-\* directory and stem (the same stem with another extension or mode shares storage slots: outside the property)
-Fresh(n) == \A k \in 1..Len(hist) : hist[k][1] = "write" => (hist[k][2].dir # n.dir \/ hist[k][2].stem # n.stem)
+\* the contract speaks about one document per name: a file write is "fresh" when no earlier file write used the
+\* same directory and stem (the same stem with another extension or mode shares storage slots: outside the
+\* property).  Members of the caller's archive are addressed by their exact path - an accepted archive write is
+\* always fresh, whatever other members (d/a.csv next to a.csv) or files exist.
+FreshIn(h, n, mode) == mode = "archive" \/ \A k \in 1..Len(h) : (h[k][1] = "write" /\ h[k][3] # "archive") => (h[k][2].dir # n.dir \/ h[k][2].stem # n.stem)
+Fresh(n, mode) == FreshIn(hist, n, mode)
 Write(n, mode) ==
    /\ Len(hist) < MaxDepth /\ ndoc < 3
    /\ (mode = "plain" => n.ext # ".zip")        \* a plain text file called x.zip is outside the property
    /\ LET d == ndoc + 1 IN
       /\ ndoc' = d
-      /\ CASE mode = "plain" -> fs' = Put(fs, Path(n), [kind |-> "text", doc |-> d]) /\ UNCHANGED arch /\ last' = [op |-> "write", ok |-> TRUE, doc |-> d, n |-> n, mode |-> mode, fresh |-> Fresh(n)]
+      /\ CASE mode = "plain" -> fs' = Put(fs, Path(n), [kind |-> "text", doc |-> d]) /\ UNCHANGED arch /\ last' = [op |-> "write", ok |-> TRUE, doc |-> d, n |-> n, mode |-> mode, fresh |-> Fresh(n, mode)]
            [] mode = "compress" -> fs' = Put(fs, Path(Target(n)), [kind |-> "zip", member |-> Member(n), doc |-> d]) /\ UNCHANGED arch
-                                   /\ last' = [op |-> "write", ok |-> TRUE, doc |-> d, n |-> n, mode |-> mode, fresh |-> Fresh(n)]
+                                   /\ last' = [op |-> "write", ok |-> TRUE, doc |-> d, n |-> n, mode |-> mode, fresh |-> Fresh(n, mode)]
            [] mode = "archive" -> IF Path(n) \in DOMAIN arch
-                                    THEN UNCHANGED <<fs, arch>> /\ last' = [op |-> "write", ok |-> FALSE, doc |-> d, n |-> n, mode |-> mode, fresh |-> Fresh(n)]
-                                    ELSE arch' = Put(arch, Path(n), d) /\ UNCHANGED fs /\ last' = [op |-> "write", ok |-> TRUE, doc |-> d, n |-> n, mode |-> mode, fresh |-> Fresh(n)]
+                                    THEN UNCHANGED <<fs, arch>> /\ last' = [op |-> "write", ok |-> FALSE, doc |-> d, n |-> n, mode |-> mode, fresh |-> Fresh(n, mode)]
+                                    ELSE arch' = Put(arch, Path(n), d) /\ UNCHANGED fs /\ last' = [op |-> "write", ok |-> TRUE, doc |-> d, n |-> n, mode |-> mode, fresh |-> Fresh(n, mode)]
    /\ hist' = Append(hist, <<"write", n, mode>>)
 \* _check_name: the file itself, then stem.gz, stem.zip, stem.csv, stem.csv.gz
 Candidates(n) == <<Path(n), <<n.dir, n.stem, ".gz">>, <<n.dir, n.stem, ".zip">>, <<n.dir, n.stem, ".csv">>, <<n.dir, n.stem, ".csv.gz">>>>
